@@ -358,6 +358,39 @@ def make_conv(repo):
     return Conv(repo)
 
 
+def share_length_domains(cv_a, cv_b, paths):
+    """both profiles are explored over one and the same set of representative lengths: the union of what each MIR's literals give
+    (an overflow assertion of the dev MIR brings literals — `shift < 8` — that the release MIR does not have)"""
+    for p in paths:
+        ba, bb = cv_a.F.bodies.get(p), cv_b.F.bodies.get(p)
+        if ba is None or bb is None:
+            continue
+        if cv_a.shape(ba)[0] is None or cv_b.shape(bb)[0] is None:
+            continue
+        dom = sorted(set(cv_a.length_domain(ba)) | set(cv_b.length_domain(bb)))
+        cv_a._ld[p] = dom
+        cv_b._ld[p] = list(dom)
+
+
+def outcome_map_diff(a, b):
+    """abstract inputs on which two outcome maps of one entry point differ; a length that only one side split by first byte is
+    compared byte by byte with the other side's single answer for that length"""
+    def sig(o):
+        return (frozenset(o.variants), bool(o.panics)) if o else None
+    diff = []
+    for k in sorted(set(a) | set(b), key=str):
+        oa, ob = a.get(k), b.get(k)
+        if oa is None and k[1] is not None:
+            oa = a.get((k[0], None))
+        if ob is None and k[1] is not None:
+            ob = b.get((k[0], None))
+        if (oa is None or ob is None) and k[1] is None and any(k2[0] == k[0] and k2[1] is not None for k2 in (b if oa is not None else a)):
+            continue          # compared through the byte-wise keys of the other side
+        if sig(oa) != sig(ob):
+            diff.append(k)
+    return diff
+
+
 # ====================================================================== acceptance / totality
 def rule_accept(prop, repo, cv, spec, cfgname):
     """spec: {fn path: {'lens': set, 'prefix': set|None, 'total_lens': set|None}}"""
